@@ -87,6 +87,13 @@ CATALOGUE = [
     ("operand-types", "ival", "{ let v = [a.doIt()]; 1 }"), ("operand-types", "ival", "{ [a.doIt(), a.doIt()]; 1 }"),
     ("operand-types", "ival", "{ let v = [1, 2]; let w = [a.take({I_d})]; v[0] }"), ("arguments", "ival", "{ console.log([]); 1 }"),
     ("arguments", "ival", "{ console.info({S}, []); 1 }"),
+    # an enum of another class is another type, also when it is named like the one a flags type wraps
+    ("assignment", "ival", "{ a.opts = VfOther.Alt1; 1 }"), ("operand-types", "bval", "a.opts == VfOther.Alt1"),
+    ("operand-types", "ival", "{ let o = a.opts | VfOther.Alt1; 1 }"), ("result-type", "opts", "VfOther.Alt1"),
+    ("result-type", "opts", "{B_d} ? VfWidget.OptX : VfOther.Alt0"),
+    # a list property other than a string list takes lists of its element type only (whether or not the value is a constant)
+    ("result-type", "ilist", "[{S}, {S}]"), ("result-type", "ilist", "[a, b]"), ("result-type", "ilist", "[{B_d}]"),
+    ("result-type", "ilist", "[\"a\", \"b\"]"), ("result-type", "ilist", "[a.sval]"), ("result-type", "ilist", "{S}"), ("result-type", "ilist", "{I}"),
     ("assignment", "ival", "{ let v: Qt; 1 }"), ("assignment", "ival", "{ let v: Math; 1 }"), ("assignment", "ival", "{ let v: console; 1 }"),
     ("assignment", "ival", "{ let v: void; 1 }"), ("assignment", "ival", "{ let v: Qt = 1; v }"),
     # an inherited property keeps the type it has in the class that declares it
